@@ -63,6 +63,7 @@ type FuncV struct {
 type Leaf struct {
 	Path string
 	S    Sort
+	Ref  bool // the leaf holds an object address (pointer, or the reference part of an interface)
 }
 
 func structOf(t types.Type) *types.Struct {
@@ -80,40 +81,42 @@ func (g *Gen) leaves(t types.Type) []Leaf {
 	case *types.Basic:
 		switch {
 		case u.Info()&types.IsBoolean != 0:
-			out = []Leaf{{"", SBool}}
+			out = []Leaf{{"", SBool, false}}
 		case u.Info()&types.IsString != 0:
-			out = []Leaf{{".arr", arrOf(SInt)}, {".off", SInt}, {".len", SInt}}
+			out = []Leaf{{".arr", arrOf(SInt), false}, {".off", SInt, false}, {".len", SInt, false}}
 		default:
-			out = []Leaf{{"", SInt}}
+			out = []Leaf{{"", SInt, false}}
 		}
-	case *types.Pointer, *types.Map, *types.Signature, *types.Chan:
-		out = []Leaf{{"", SInt}}
+	case *types.Pointer:
+		out = []Leaf{{"", SInt, true}}
+	case *types.Map, *types.Signature, *types.Chan:
+		out = []Leaf{{"", SInt, false}}
 	case *types.Interface:
-		out = []Leaf{{".tag", SInt}, {".ref", SInt}}
+		out = []Leaf{{".tag", SInt, false}, {".ref", SInt, true}}
 	case *types.Slice:
-		out = []Leaf{{".len", SInt}, {".nil", SBool}}
+		out = []Leaf{{".len", SInt, false}, {".nil", SBool, false}}
 		for _, l := range g.leaves(u.Elem()) {
-			out = append(out, Leaf{".elem" + l.Path, arrOf(l.S)})
+			out = append(out, Leaf{".elem" + l.Path, arrOf(l.S), false})
 		}
 	case *types.Array:
 		for _, l := range g.leaves(u.Elem()) {
-			out = append(out, Leaf{".elem" + l.Path, arrOf(l.S)})
+			out = append(out, Leaf{".elem" + l.Path, arrOf(l.S), false})
 		}
 	case *types.Struct:
 		for i := 0; i < u.NumFields(); i++ {
 			f := u.Field(i)
 			for _, l := range g.leaves(f.Type()) {
-				out = append(out, Leaf{"." + f.Name() + l.Path, l.S})
+				out = append(out, Leaf{"." + f.Name() + l.Path, l.S, l.Ref})
 			}
 		}
 	case *types.Tuple:
 		for i := 0; i < u.Len(); i++ {
 			for _, l := range g.leaves(u.At(i).Type()) {
-				out = append(out, Leaf{fmt.Sprintf(".%d%s", i, l.Path), l.S})
+				out = append(out, Leaf{fmt.Sprintf(".%d%s", i, l.Path), l.S, l.Ref})
 			}
 		}
 	case *types.TypeParam:
-		out = []Leaf{{".tag", SInt}, {".ref", SInt}}
+		out = []Leaf{{".tag", SInt, false}, {".ref", SInt, true}}
 	default:
 		panic(fmt.Sprintf("leaves: unsupported type %v (%T)", t, u))
 	}
